@@ -222,6 +222,10 @@ class Sim:
                 ret = hc.set_many({k: uniq for k in allkeys})
             elif name == "delete_many":
                 ret = hc.delete_many(allkeys)
+            elif name == "set_many_refused":
+                # one value is over the item size limit: the server answers SERVER_ERROR (a memcached error, not a failure of
+                # the server); with ignore_exc nothing may escape, without it only that memcached error
+                ret = hc.set_many({key: b"x" * ((1 << 20) + 1), allkeys[0]: uniq})
             elif name == "setget_pair":
                 pk = (key, "pbare-%d" % (call % 7))
                 step()
@@ -350,6 +354,8 @@ class Sim:
         if dup and name != "getmany_vs_get":
             self.v("command-issued-twice:%s" % name, "%s sent %r (verb, key, times) in one call" % (name, dup[:3]))
         involved = [key] if name not in ("get_many", "set_many", "delete_many", "setmanyget", "getmany_vs_get") else allkeys
+        if name == "set_many_refused":
+            involved = []
         if name == "setget_pair":
             involved = []
         if name == "setmanyget_pairs":
@@ -502,7 +508,7 @@ def random_sequence(rng, nserv):
         if c < 0.55:
             seq.append(("op", rng.choice(["get", "set", "setget", "delete", "incr", "touch", "get_many", "set_many", "delete_many",
                                           "setmanyget", "setmanyget_pairs", "setmanyget_pairs", "setget_pair", "setget_pair",
-                                          "getmany_vs_get"]),
+                                          "getmany_vs_get"] + (["set_many_refused"] if rng.random() < 0.15 else [])),
                         rng.randrange(nserv), rng.randrange(2)))
         elif c < 0.8:
             seq.append(("adv", rng.choice([1, 1, 10, 11, 11, 50, 100, 101, 201, 0.4, 9.5, 10.2])))
